@@ -254,6 +254,6 @@ def jobs(tier):
             assumptions=['dom irreflexive and asymmetric (proved from is_more_specific\'s postcondition by job specificity/dom-lemmas); NOT assumed transitive',
                          'candidates are pairwise distinct pointers'],
             extracted=[ex], replay=replay, timeout=900,
-            props=['C01', 'C03', 'C06'])
+            props=['C01', 'C02', 'C03', 'C06'])
     j.nc = nc
     return [j] + out_lemma
